@@ -13,19 +13,18 @@ type name and value exactly as the generator wrote it.
 The regression corpus is re-rendered with the structure-blind subset of these moves (blank runs, blanks around , ( ),
 line joins / extra breaks / blank lines, CRLF, case of unambiguous keyword phrases).
 
-Failure classes that are decided from the INPUT (known defect families; a rendering belongs to the first one that applies;
-the main sets are generated outside all of them, each family has a set of its own so that a repaired tree is still exercised):
-  c05:crlf-line-ends                       the text contains a CR
-  c05:line-starts-with-string-literal      a line break is followed directly (column 0) by a string literal
+Failure classes that are decided from the INPUT (the string-literal defect families; a rendering belongs to the first one
+that applies; the main sets are moved out of them by step_out, the families have sets of their own so that a repaired tree
+is still exercised; a CRLF break counts as a line break):
+  c05:line-starts-with-string-literal      a line break (LF or CRLF) is followed directly (column 0) by a string literal
   c05:comma-or-paren-glued-to-word-then-single-tab-then-string-literal
                                            ")WORD<TAB>'lit'" / ",WORD<TAB>'lit'": no blank after ) or , and exactly one tab before the literal
-  c05:word-glued-to-comma-then-string-literal        "WORD,'lit'" / "WORD,<TAB>'lit'"
-  c05:comma-or-paren-directly-before-string-literal  ",'lit'" / ")'lit'" / ",<TAB>'lit'" otherwise
-  c05:alter-column-rename-modify-keyword-not-uppercase
-                                           an ALTER TABLE statement whose COLUMN / RENAME / MODIFY keyword is not all upper-case
-  c05:index-asc-desc-keyword-not-uppercase a CREATE INDEX statement whose ASC / DESC keyword is not all upper-case
+  c05:word-glued-to-comma-then-string-literal        "WORD,'lit'" / "WORD,<TAB>'lit'"   (fires only as c05:corpus-...)
+  c05:comma-or-paren-directly-before-string-literal  ",'lit'" / ")'lit'" / ",<TAB>'lit'" otherwise   (does not fire)
 corpus re-renderings use the same families with the prefix "c05:corpus-" (only families the move introduced).
-Every other failure gets "c05:<dimension>:<what differs>" (c05:corpus-<move>:<what differs>) from the observed difference."""
+Everything else - CRLF renderings, any case of ALTER's COLUMN / RENAME / MODIFY and of an index's ASC / DESC included - is an
+ordinary asserted case: a failure gets "c05:<dimension>:<what differs>" (c05:corpus-<move>:<what differs>) from the observed
+difference.  notes["string_family_inputs_fail_pass"] counts, per family, the inputs of the family sets that fail / pass."""
 import hashlib
 import re
 
@@ -132,8 +131,6 @@ def recase(word, style, rnd=None):
 
 
 # ------------------------------------------------------------------------------------------------ input classes (known defect families)
-ALTER_ONLY_KW = {"COLUMN", "RENAME", "MODIFY"}
-ORDER_KW = {"ASC", "DESC"}
 _STRLIKE = re.compile(r"\w*'")
 STRING_FAMILIES = ["line-starts-with-string-literal",
                    "comma-or-paren-glued-to-word-then-single-tab-then-string-literal",
@@ -171,22 +168,10 @@ def string_family_positions(texts, seps):
 
 def input_class(lay):
     """known-defect class of a rendering, decided from the rendering alone (None: no known family applies)"""
-    if "\r" in lay.text():
-        return "c05:crlf-line-ends"
     fams = [string_family(lay.texts[s], lay.seps[s]) for s in range(len(lay.unit))]
     fams = [f for f in fams if f is not None]
     if fams:
         return "c05:" + STRING_FAMILIES[min(fams)]
-    for s, st in enumerate(lay.unit):
-        if st.family == "alter":
-            for i, t in enumerate(st.tokens):
-                if t[1] == K and t[0] in ALTER_ONLY_KW and lay.texts[s][i] != t[0]:
-                    return "c05:alter-column-rename-modify-keyword-not-uppercase"
-    for s, st in enumerate(lay.unit):
-        if st.family == "index":
-            for i, t in enumerate(st.tokens):
-                if t[1] == K and t[0] in ORDER_KW and lay.texts[s][i] != t[0]:
-                    return "c05:index-asc-desc-keyword-not-uppercase"
     return None
 
 
@@ -206,12 +191,6 @@ def step_out(lay):
                 lay.seps[s][j - 1] = "\t\t"
     assert all(string_family(lay.texts[s], lay.seps[s]) is None for s in range(len(lay.unit)))
     return lay
-
-
-def sensitive_kw(st, i):
-    """keyword token whose case puts the rendering into a known-defect family"""
-    t = st.tokens[i]
-    return (st.family == "alter" and t[0] in ALTER_ONLY_KW) or (st.family == "index" and t[0] in ORDER_KW)
 
 
 # ------------------------------------------------------------------------------------------------ statement generators
@@ -618,9 +597,9 @@ def describe(got, exp):
 # ------------------------------------------------------------------------------------------------ the check
 INLINE_MAND = [" ", "  ", "\t", " \t ", "     "]
 INLINE_OPT = ["", " ", "  ", "\t"]
-BREAKS = ["\n", "\n    ", "\n\t", " \n  ", "\n\n", "\n \n  ", "\t\n "]
+BREAKS = ["\n", "\n    ", "\n\t", " \n  ", "\n\n", "\n \n  ", "\t\n ", "\r\n", "\r\n  "]
 BETWEEN = ["\n", "\n\n", "\n  ", "\n\n\n\t", " \n", "\n \n"]
-BREAK_FORMS = ["\n", "\n    ", " \n\t"]
+BREAK_FORMS = ["\n", "\n    ", " \n\t", "\r\n"]
 
 
 def _digest(txt):
@@ -657,7 +636,11 @@ class _Run:
         if (set_name, key) in self.ck.distinct:
             return
         got = parse(txt, output_mode=mode)
-        if got[0] == "ok" and jdump(got[1]) == jdump(cres[1]):
+        same = got[0] == "ok" and jdump(got[1]) == jdump(cres[1])
+        if known_only:
+            tally = self.ck.notes.setdefault("string_family_inputs_fail_pass", {}).setdefault(input_class(lay), [0, 0])
+            tally[1 if same else 0] += 1
+        if same:
             self.ck.ok(set_name, key, dict(ddl=txt[:300]))
             return
         cls = input_class(lay)
@@ -669,7 +652,7 @@ class _Run:
         self.ck.fail(set_name, key, cls, info)
 
 
-def layouts_case(rnd, unit, level, with_sensitive):
+def layouts_case(rnd, unit, level):
     """keyword-case renderings, canonical spacing.  level 0: small, 1: medium, 2: exhaustive single flips"""
     out = []
 
@@ -677,10 +660,7 @@ def layouts_case(rnd, unit, level, with_sensitive):
         lay = Layout(unit)
         for s, st in enumerate(unit):
             for i in st.kw_idx():
-                style = fn(s, i)
-                if not with_sensitive and sensitive_kw(st, i):
-                    style = "U"
-                lay.texts[s][i] = recase(st.tokens[i][0], style, rnd)
+                lay.texts[s][i] = recase(st.tokens[i][0], fn(s, i), rnd)
         return lay
     for style in ("l", "T", "a", "A", "e"):
         out.append(mk(lambda s, i, style=style: style))
@@ -734,7 +714,7 @@ def layouts_break(rnd, unit, level):
     if level == 0:
         gaps = rnd.sample(gaps, min(len(gaps), 24))
     for (s, g) in gaps:
-        forms = BREAK_FORMS if level == 2 else [BREAK_FORMS[(s + g) % 3]]
+        forms = BREAK_FORMS if level == 2 else [BREAK_FORMS[(s + g) % len(BREAK_FORMS)]]
         for b in forms:
             lay = Layout(unit)
             lay.seps[s][g] = b
@@ -777,14 +757,12 @@ def layouts_blank(rnd, unit, level):
     return out
 
 
-def layout_random(rnd, unit, with_sensitive=False, crlf=False, p_break=0.25):
+def layout_random(rnd, unit, crlf=False, p_break=0.25):
     lay = Layout(unit)
     mode = rnd.choice(["r", "style", "l", "T", "U"])
     for s, st in enumerate(unit):
         for i in st.kw_idx():
             style = "r" if mode == "r" else rnd.choice("UlTaAe") if mode == "style" else mode
-            if not with_sensitive and sensitive_kw(st, i):
-                style = "U"
             lay.texts[s][i] = recase(st.tokens[i][0], style, rnd)
         for g in range(st.ngaps()):
             o = optional_gap(st.tokens[g], st.tokens[g + 1])
@@ -795,9 +773,11 @@ def layout_random(rnd, unit, with_sensitive=False, crlf=False, p_break=0.25):
     lay.between = [rnd.choice(["", "", "\n", "  "])] + [rnd.choice(BETWEEN) for _ in unit[1:]]
     lay.tail = rnd.choice(["", "\n", " ", "\n\n"])
     if crlf:
-        lay.seps = [[x.replace("\n", "\r\n") for x in row] for row in lay.seps]
-        lay.between = [x.replace("\n", "\r\n") for x in lay.between]
-        lay.tail = lay.tail.replace("\n", "\r\n")
+        def crlf_(x):
+            return x.replace("\r\n", "\n").replace("\n", "\r\n")
+        lay.seps = [[crlf_(x) for x in row] for row in lay.seps]
+        lay.between = [crlf_(x) for x in lay.between]
+        lay.tail = crlf_(lay.tail)
     return lay
 
 
@@ -833,7 +813,7 @@ def layouts_string_families(rnd, unit):
             prev = st.tokens[j - 1]
             variants = []
             if st.break_ok(j - 1):
-                variants.append({j - 1: "\n"})
+                variants += [{j - 1: "\n"}, {j - 1: "\r\n"}]
             if prev[0] in (",", ")"):
                 variants += [{j - 1: ""}, {j - 1: "\t"}]
                 if j >= 2:
@@ -1006,8 +986,6 @@ def corpus_render(sc, rnd, move):
 
 def corpus_class(txt, texts, gaps, orig):
     """known family of a moved corpus script (only families the move introduced: the original is the reference)"""
-    if "\r" in txt:
-        return "c05:corpus-crlf-line-ends"
     f, f0 = string_family_positions(texts, gaps), string_family_positions([t[0] for t in orig[0]], orig[1])
     new = [fam for j, fam in f.items() if f0.get(j) != fam]
     if new:
@@ -1053,12 +1031,9 @@ def check(ck):
     for uid, unit in units.items():
         big = uid.startswith("script-") or uid.startswith("random-")
         level = (0 if big else 1) if quick else (1 if big else 2)
-        # (1) keyword case outside the known case families; then the known families on their own
-        for lay in layouts_case(rnd, unit, level, with_sensitive=False):
+        # (1) keyword case
+        for lay in layouts_case(rnd, unit, level):
             run.one("keyword-case", "case", uid, unit, lay)
-        if any(sensitive_kw(st, i) for st in unit for i in st.kw_idx()):
-            for lay in layouts_case(rnd, unit, 0, with_sensitive=True):
-                run.one("keyword-case-alter-index-words", "case", uid, unit, lay, known_only=True)
         # (2) blanks and tabs
         for lay in layouts_space(rnd, unit, level):
             run.one("blanks-tabs", "space", uid, unit, lay)
@@ -1077,15 +1052,16 @@ def check(ck):
             # thorough: the output mode rotates over all 15 (the reference is the canonical rendering in the same mode)
             run.one("mixed", "mixed", uid, unit, layout_random(rnd, unit, p_break=rnd.choice([0.1, 0.25, 0.5])), mode="sql" if (quick or k % 3) else MODES[(k // 3) % len(MODES)])
         for k in range(1 if quick else 6):
-            run.one("mixed-known-families", "mixed", uid, unit, layout_random(rnd, unit, with_sensitive=True), known_only=True)
-        # (6) CRLF
-        run.one("crlf", "crlf", uid, unit, pretty(unit, "\r\n", "    "), known_only=True)
+            run.one("mixed-string-families", "mixed", uid, unit, layout_random(rnd, unit, crlf=bool(k % 2)), known_only=True)
+        # (6) CRLF everywhere (single CRLF breaks among LF ones are part of the line-break and mixed sets)
+        run.one("crlf", "crlf", uid, unit, pretty(unit, "\r\n", "    "))
+        run.one("crlf", "crlf", uid, unit, pretty(unit, "\r\n", ""))
         lay = Layout(unit)
         lay.between = [""] + ["\r\n"] * (len(unit) - 1)
         lay.tail = "\r\n"
-        run.one("crlf", "crlf", uid, unit, lay, known_only=True)
-        for k in range(1 if quick else 4):
-            run.one("crlf", "crlf", uid, unit, layout_random(rnd, unit, crlf=True), known_only=True)
+        run.one("crlf", "crlf", uid, unit, lay)
+        for k in range(3 if quick else 10):
+            run.one("crlf", "crlf", uid, unit, layout_random(rnd, unit, crlf=True, p_break=rnd.choice([0.1, 0.25, 0.5])))
 
     # (7) regression corpus, structure-blind moves
     cp = corpus()
@@ -1115,10 +1091,15 @@ def check(ck):
                 if (set_name, key) in ck.distinct:
                     continue
                 got = parse(txt)
-                if got[0] == "ok" and jdump(got[1]) == jdump(base):
+                same = got[0] == "ok" and jdump(got[1]) == jdump(base)
+                fam = corpus_class(txt, texts, gaps, sc)
+                if fam:
+                    tally = ck.notes.setdefault("string_family_inputs_fail_pass", {}).setdefault(fam, [0, 0])
+                    tally[1 if same else 0] += 1
+                if same:
                     ck.ok(set_name, key)
                     continue
-                cls = corpus_class(txt, texts, gaps, sc) or "c05:corpus-%s:%s" % (mv, describe(got, base))
+                cls = fam or "c05:corpus-%s:%s" % (mv, describe(got, base))
                 ck.fail(set_name, key, cls, dict(ddl=txt, original_ddl=ddl, move=mv, observed=got[1] if got[0] == "ok" else list(got), expected=base))
 
     rule = ("abstract statements of the four families (CREATE TABLE with every core column option / table constraint, 16 ALTER TABLE kinds, CREATE [UNIQUE|CLUSTERED] INDEX, "
@@ -1128,7 +1109,7 @@ def check(ck):
             "carries every identifier, type name, default value and referential action exactly as written; regression corpus (%d of %d scripts inside the fragment) "
             "under %d structure-blind moves, contract: run(moved) == run(original)" % (len(fixed), len(units) - len(fixed), len(elig), len(cp), len(moves)))
     bound = ("per unit: 5 uniform case patterns + random ones + every keyword flipped alone + lower-case-from-keyword-k; 6 uniform separator styles + random + single-gap flips; "
-             "a single break at every allowed gap (%s) + break-everywhere / per-token-class patterns + 3 pretty layouts; blank-line patterns; %s random all-dimension renderings; "
-             "CRLF renderings; corpus: %s moves per script" % ("1 of 3 forms; 24 sampled gaps for multi-statement scripts" if quick else "3 forms; 1 form for multi-statement scripts",
-                                                              "10-14" if quick else "80-150", "4 of 13" if quick else "all 13"))
+             "a single break at every allowed gap (%s) + break-everywhere / per-token-class patterns + 3 pretty layouts; blank-line patterns; %s random all-dimension renderings "
+             "(LF and CRLF breaks mixed); all-CRLF renderings (3 fixed + %s random); corpus: %s moves per script" % ("1 of 4 forms; 24 sampled gaps for multi-statement scripts" if quick else "4 forms incl. CRLF; 1 form for multi-statement scripts",
+                                                              "10-14" if quick else "80-150", "3" if quick else "10", "4 of 13" if quick else "all 13"))
     return rule, bound
